@@ -1,0 +1,14 @@
+//! Verification hook (only with `--cfg avt_verif`).
+
+use super::Vt;
+
+impl Vt {
+    /// Canonical rendering of the complete private state (terminal, both buffers, parser).
+    pub fn verif_state(&self) -> String {
+        let mut out = String::new();
+        self.terminal.verif_state(&mut out);
+        self.parser.verif_state(&mut out);
+
+        out
+    }
+}
